@@ -4,52 +4,183 @@ package zz_verif
 
 import (
 	ipfslog "berty.tech/go-ipfs-log"
-	"berty.tech/go-ipfs-log/entry/sorting"
 	"berty.tech/go-ipfs-log/iface"
 	"berty.tech/go-ipfs-log/internal/vx"
+	"github.com/ipfs/go-cid"
 )
 
-// H_C15: iterator with a symbolic amount and an optional inclusive lower bound on a forked log.
-func H_C15() {
-	api := newMemAPI()
-	idA, idB := mockIdentity("A", []byte{1}), mockIdentity("B", []byte{2})
-	A := newLog(api, idA, sorting.SortByEntryHash)
-	B := newLog(api, idB, sorting.SortByEntryHash)
-	A.Append(ctx, []byte("a0"), nil)
-	B.Append(ctx, []byte("b0"), nil)
-	A.Join(B, -1)
-	A.Append(ctx, []byte("a1"), nil)
-	A.Append(ctx, []byte("a2"), nil)
-	vals := A.Values().Slice() // ascending
-	size := len(vals)
-	amount := vx.IntRange("amount", 0, size+1)
-	opts := &ipfslog.IteratorOptions{Amount: &amount}
-	lower := vx.Choice("lower", size+1) // size = no lower bound
-	if lower < size {
-		opts.GTE = vals[lower].GetHash()
-	}
-	ch := make(chan iface.IPFSLogEntry, size+2)
-	err := A.Iterator(opts, ch)
-	vx.Assert("C15", err == nil, "iterator succeeds")
-	// the channel must be closed on success: drain without blocking forever
-	n := 0
-	closed := false
-	for i := 0; i < size+3; i++ {
+// drain reads everything buffered in ch without blocking and reports whether the channel was closed.
+func drain(ch chan iface.IPFSLogEntry, max int) (out []iface.IPFSLogEntry, closed bool) {
+	for i := 0; i < max+2; i++ {
 		select {
-		case _, ok := <-ch:
+		case e, ok := <-ch:
 			if !ok {
-				closed = true
-			} else {
-				n++
+				return out, true
 			}
+			out = append(out, e)
 		default:
-		}
-		if closed {
-			break
+			return out, false
 		}
 	}
-	vx.Assert("C15", closed, "output channel closed on success")
-	vx.Assert("C15", n <= amount, "at most amount entries")
+	return out, false
+}
+
+func reverseEntries(es []iface.IPFSLogEntry) []iface.IPFSLogEntry {
+	out := make([]iface.IPFSLogEntry, len(es))
+	for i, e := range es {
+		out[len(es)-1-i] = e
+	}
+	return out
+}
+
+// H_C15: Iterator over a log produced by an arbitrary bounded history (forked logs included), with
+// every combination of upper bound (default heads / one or two inclusive / one exclusive / unknown),
+// lower bound (none / inclusive / exclusive, any entry of the selected range) and amount (none, or a
+// symbolic integer in [0, size+2]).
+func H_C15() {
+	cfg := histParams()
+	h := newHist(cfg)
+	h.run(nil, nil)
+	L := h.logs[0]
+	cmp := h.sortFn()
+	es := entriesOf(L)
+	size := len(es)
+	asc := L.Values().Slice()
+	opts := &ipfslog.IteratorOptions{}
+
+	// ---- upper bound ----
+	var start []string // hashes the traversal starts from
+	unknown := false
+	antichain := true
+	switch vx.Choice("upper", 6) {
+	case 0: // default: heads
+		for _, e := range L.Heads().Slice() {
+			start = append(start, hstr(e))
+		}
+		vx.Sig("upper=heads")
+	case 1: // one inclusive bound
+		vx.Assume(size > 0)
+		x := asc[vx.Choice("x", size)]
+		opts.LTE = []cid.Cid{x.GetHash()}
+		start = []string{hstr(x)}
+		vx.Sig("upper=LTE1")
+	case 2: // two inclusive bounds
+		vx.Assume(size > 1)
+		i := vx.Choice("x", size)
+		j := vx.Choice("y", size)
+		vx.Assume(i != j)
+		opts.LTE = []cid.Cid{asc[i].GetHash(), asc[j].GetHash()}
+		start = []string{hstr(asc[i]), hstr(asc[j])}
+		pi := refPast([]string{hstr(asc[i])}, es)
+		pj := refPast([]string{hstr(asc[j])}, es)
+		antichain = !pi[hstr(asc[j])] && !pj[hstr(asc[i])]
+		vx.Sig("upper=LTE2")
+	case 3: // one exclusive bound
+		vx.Assume(size > 0)
+		x := asc[vx.Choice("x", size)]
+		opts.LT = []cid.Cid{x.GetHash()}
+		for _, n := range x.GetNext() {
+			start = append(start, n.String())
+		}
+		vx.Sig("upper=LT1")
+	case 4:
+		opts.LTE = []cid.Cid{vx.Cid(77)}
+		unknown = true
+		vx.Sig("upper=LTE-unknown")
+	case 5:
+		opts.LT = []cid.Cid{vx.Cid(77)}
+		unknown = true
+		vx.Sig("upper=LT-unknown")
+	}
+	rng := refPast(start, es)
+	var rangeEntries []iface.IPFSLogEntry
+	for _, e := range es {
+		if rng[hstr(e)] {
+			rangeEntries = append(rangeEntries, e)
+		}
+	}
+	desc := reverseEntries(refSorted(rangeEntries, cmp))
+
+	// ---- lower bound (inside the selected range) ----
+	lower := vx.Choice("lower", 3)
+	want := desc
+	if lower != 0 && !unknown {
+		vx.Assume(len(desc) > 0)
+		zi := vx.Choice("z", len(desc))
+		z := desc[zi]
+		if lower == 1 {
+			opts.GTE = z.GetHash()
+			want = desc[:zi+1]
+			vx.Sig("lower=GTE")
+		} else {
+			opts.GT = z.GetHash()
+			want = desc[:zi]
+			vx.Sig("lower=GT")
+		}
+	} else {
+		vx.Sig("lower=none")
+	}
+
+	// ---- amount ----
+	amount := -1
+	if vx.Choice("hasAmount", 2) == 1 {
+		amount = vx.IntRange("amount", 0, size+2)
+		opts.Amount = &amount
+		vx.Sig("amount=set")
+	} else {
+		vx.Sig("amount=none")
+	}
+
+	ch := make(chan iface.IPFSLogEntry, size+4)
+	err := L.Iterator(opts, ch)
+	if unknown {
+		vx.Assert("C15", err != nil, "an unknown upper bound is reported as an error")
+		vx.Cover("unknown-upper")
+		return
+	}
+	vx.Assert("C15", err == nil, "iteration with valid bounds succeeds")
+	if err != nil {
+		return
+	}
+	got, closed := drain(ch, size+4)
+	vx.Assert("C15", closed, "on success the output channel is closed")
+	if amount >= 0 {
+		vx.Assert("C15", len(got) <= amount, "at most `amount` entries are emitted")
+		if amount > len(want) {
+			vx.Cover("amount-exceeds-available")
+		}
+		if amount == 0 {
+			vx.Cover("amount-zero")
+		}
+		k := amount
+		if k > len(want) {
+			k = len(want)
+		}
+		if lower != 0 {
+			want = want[len(want)-k:] // nearest the lower bound
+		} else {
+			want = want[:k] // the newest
+		}
+	}
+	vx.Assert("C15", len(hashSet(got)) == len(got), "no entry is emitted twice")
+	for i := 0; i+1 < len(got); i++ {
+		r, _ := cmp(got[i], got[i+1])
+		vx.Assert("C15", r > 0, "entries are emitted newest first")
+	}
+	vx.Assert("C15", subset(hashSet(got), rng), "only entries of the causal past of the upper bound are emitted")
+	if antichain || amount < 0 {
+		vx.Assert("C15", sameSeq(got, want), "the emitted sequence is exactly the requested causal range")
+	} else {
+		// causally related inclusive bounds: the statement only promises "at most amount, the newest"
+		ok := len(got) <= len(want)
+		for i := range got {
+			if i < len(want) && hstr(got[i]) != hstr(want[i]) {
+				ok = false
+			}
+		}
+		vx.Assert("C15", ok, "the emitted sequence is a prefix of the requested causal range")
+		vx.Cover("related-multi-bounds")
+	}
 	vx.Cover("c15-done")
 }
 
